@@ -30,7 +30,7 @@ func init() {
 			if tier == "quick" {
 				return 256
 			}
-			return 1920
+			return 5760
 		},
 		Run:        runC17,
 		Required:   []string{"runs.in_process", "runs.same_input_objects", "runs.cross_process", "scenarios.random_population", "scenarios.spawned", "epochs.compared"},
